@@ -18,7 +18,7 @@
 From Avfs Require Import Base PathModel PathSpec PathProofs PathCleanProofs PathIterProofs.
 From Coq Require Import Permutation.
 From Avfs Require Import MemFS MemFile World Posix Inv WalkBridge WalkSym WalkBudget WalkReadlink WalkRel StepEq WalkInv StepInv
-  HeapEq HeapEqSnap StepRename StepRenameDir StepHist StepCwd StepMkdirAll StepHistM StepRemoveAll StepRemoveAllEx StepOpen StepHistO StepNamePath StepCwdCreate StepRemoveAllExact StepNamePath2 StepMkdirAllRel StepCwdMut.
+  HeapEq HeapEqSnap StepRename StepRenameDir StepHist StepCwd StepMkdirAll StepHistM StepRemoveAll StepRemoveAllEx StepOpen StepHistO StepNamePath StepCwdCreate StepRemoveAllExact StepNamePath2 StepMkdirAllRel StepCwdMut DirExt.
 
 Theorem C01_step_stat : forall (s : fsys) (sv : sview) (cs : list str),
   step_hyps s sv -> path_ok s sv SlStat cs ->
@@ -697,3 +697,40 @@ Example C01_history_inv_cwd_all_example :
   /\ snd (spec_run StepExamples.sw_tree StepCwdMutExamples.he)
      = [SOk; SOk; SOk; SOk; SOk; SOk; SOk; SStr (abs_path [WalkSymExamples.s_d; WalkSymExamples.s_e])].
 Proof. split; [exact StepCwdMutExamples.he_inv|exact StepCwdMutExamples.he_results]. Qed.
+
+(* ---- calls that cannot move the working directory ----------------------------------------------------------------------------------------------- *)
+(* [dext h h']: every directory of [h] is one of [h'] and keeps its entries that lead to directories.  Every specification call
+   that only creates entries, changes attributes or contents, or removes a NON-directory entry is [dext] ([cwd_keeping]:
+   Mkdir, MkdirAll, OpenFile, Link, Symlink, Truncate, Chmod, Chown, Lchown, WriteFile, the read-only calls, Remove of a
+   non-directory), whatever its outcome; the administrator's directory walks survive - so "the working-directory string still
+   denotes the working-directory node" holds after them.  Left as a premise: Rename, Remove of a directory, RemoveAll. *)
+Theorem C01_dext_spec_step : forall (sw : sworld) (c : call), cwd_keeping sw c ->
+  dext (f_heap (sw_fs sw)) (f_heap (sw_fs (fst (spec_step true sw c)))).
+Proof. exact dext_spec_step. Qed.
+
+Theorem C01_dwalk_dext : forall (h h' : heap) (u : user), us_admin u = true -> dext h h' ->
+  forall ns d e, node_is_dir h d = true -> dwalk h u d ns = Some e -> dwalk h' u d ns = Some e.
+Proof. exact dwalk_dext. Qed.
+
+Theorem C01_cwd_rel_kept : forall (sw : sworld) (d : str) (c : call),
+  us_admin (v_user (sv_view (sw_sv sw))) = true -> node_is_dir (f_heap (sw_fs sw)) (v_root (sv_view (sw_sv sw))) = true ->
+  cwd_keeping sw c -> cwd_rel (sw_fs sw) (sw_sv sw) d -> cwd_rel (sw_fs (fst (spec_step true sw c))) (sw_sv sw) d.
+Proof. exact cwd_rel_kept. Qed.
+
+(* [covered_e] without that premise, for those calls (the history theorem hands [cwd_rel] of the current state to each call) *)
+Theorem C01_covered_e_keep : forall (vi : nat) (sw : sworld) (d : str) (c : call),
+  step_hyps (sw_fs sw) (sw_sv (sw_setcwd sw d)) -> cwd_rel (sw_fs sw) (sw_sv sw) d -> cwd_keeping sw c ->
+  (covered_x vi (sw_setcwd sw d) c \/ covered_res vi (sw_setcwd sw d) c \/ covered_np vi (sw_setcwd sw d) c
+   \/ covered_r vi (sw_setcwd sw d) c \/ covered_mp vi (sw_setcwd sw d) c) ->
+  covered_e vi sw d c.
+Proof. exact covered_e_keep. Qed.
+
+(* Chdir "/d/e"; Mkdir "../x"; WriteFile "../x/f"; Link "f" "../x/g"; Remove "../x/g"; Lstat "../x/f": covered through
+   [C01_covered_e_keep] - no working-directory premise discharged by hand *)
+Example C01_history_inv_cwd_keep_example :
+  Forall2 obs_sim (snd (impl_run StepExamples.w_tree StepCwdKeepExamples.hk)) (snd (spec_run StepExamples.sw_tree StepCwdKeepExamples.hk))
+  /\ absc (fst (impl_run StepExamples.w_tree StepCwdKeepExamples.hk)) 0 (fst (spec_run StepExamples.sw_tree StepCwdKeepExamples.hk))
+       (cwd_of (fst (impl_run StepExamples.w_tree StepCwdKeepExamples.hk)) 0)
+  /\ Inv (fst (impl_run StepExamples.w_tree StepCwdKeepExamples.hk))
+  /\ links_ok (f_heap (w_fs (fst (impl_run StepExamples.w_tree StepCwdKeepExamples.hk)))).
+Proof. exact StepCwdKeepExamples.hk_inv. Qed.
